@@ -170,6 +170,8 @@ def build_harness(cfg, log):
     if feats:
         cmd += ["--features", ",".join(feats)]
     td = cfg.get("target_dir")
+    if td and td.startswith("/verif/"):
+        td = VERIF + td[len("/verif"):]
     env = {}
     if td:
         env["CARGO_TARGET_DIR"] = td
@@ -230,6 +232,8 @@ def run_property(pid, tier, seed, replay):
         if os.path.exists(outp):
             os.remove(outp)
         td = cfg.get("target_dir", f"{HARNESS}/target")
+        if td.startswith("/verif/"):
+            td = VERIF + td[len("/verif"):]
         cmd = [f"{td}/debug/slh", pid, "--tier", tier, "--seed", str(seed), "--out", outp]
         if replay:
             cmd += ["--replay", replay]
@@ -368,6 +372,13 @@ def setup():
         if rc != 0:
             print(out[-3000:])
             return rc
+    # the CLI binary used by C25 (built from /repo into the harness target directory)
+    with BuildLock():
+        rc, out = sh(["cargo", "build", "--offline", "-p", "searchlite-cli", "--manifest-path", "/repo/Cargo.toml",
+                      "--target-dir", f"{HARNESS}/target/cli"], cwd=HARNESS, timeout=7200, log=log)
+    if rc != 0:
+        print(out[-3000:])
+        return rc
     print("setup ok")
     return 0
 
